@@ -92,3 +92,90 @@ func init() {
 		}
 	}
 }
+
+// labels.entries: several `labels` entries of one kustomization file, some with field specs of their own (`fields`), applied
+// by a real build, against Kust.Labels.applyEntries (the LabelTransformer configurator + the label filter).
+func init() {
+	components["labels.entries"] = func(r *rand.Rand, tier string) (map[string]interface{}, func() (interface{}, string)) {
+		lk := labelKinds[r.Intn(len(labelKinds))]
+		g, v := resid.ParseGroupVersion(lk.apiv)
+		obj := Obj{"apiVersion": lk.apiv, "kind": lk.kind, "metadata": Obj{"name": "o"}}
+		var locs []interface{}
+		for _, p := range lk.locs {
+			var c interface{}
+			if r.Intn(3) != 0 {
+				m := map[string]string{pick(r, []string{"app", "keep"}): pick(r, []string{"a", "b"})}
+				setPath(obj, strings.Split(p, "/"), toObj(m))
+				c = dictWire(m)
+			}
+			locs = append(locs, map[string]interface{}{"path": p, "cur": c})
+		}
+		var entries []interface{}
+		var kentries []interface{}
+		for i := 0; i < 1+r.Intn(3); i++ {
+			L := map[string]string{pick(r, []string{"env", "tier", "team", "via"}) + string(rune('0'+i)): pick(r, []string{"dev", "prod", "x"})}
+			incSel, incTmpl := r.Intn(4) == 0, r.Intn(2) == 0
+			e := Obj{"pairs": toObj(L)}
+			if incSel {
+				e["includeSelectors"] = true
+			}
+			if incTmpl {
+				e["includeTemplates"] = true
+			}
+			var fields []interface{}
+			var kfields []interface{}
+			if r.Intn(2) == 0 {
+				// own field specs: one of the kind's label-bearing locations (selectors included), for this kind or for every kind,
+				// created when absent or not
+				for j := 0; j < 1+r.Intn(2); j++ {
+					p := lk.locs[r.Intn(len(lk.locs))]
+					kind := pick(r, []string{lk.kind, lk.kind, "", "Other"})
+					create := r.Intn(2) == 0
+					fields = append(fields, map[string]interface{}{"group": "", "version": "", "kind": kind, "path": p, "create": create})
+					kf := Obj{"path": p}
+					if kind != "" {
+						kf["kind"] = kind
+					}
+					if create {
+						kf["create"] = true
+					}
+					kfields = append(kfields, kf)
+				}
+				e["fields"] = kfields
+			}
+			if fields == nil {
+				fields = []interface{}{}
+			}
+			entries = append(entries, map[string]interface{}{"labels": dictWire(L), "includeSelectors": incSel, "includeTemplates": incTmpl, "fields": fields})
+			kentries = append(kentries, e)
+		}
+		args := map[string]interface{}{"group": g, "version": v, "kind": lk.kind, "entries": entries, "locs": locs}
+		return args, func() (interface{}, string) {
+			b, _ := yaml.Marshal(obj)
+			k := Obj{"resources": []interface{}{"r.yaml"}, "labels": kentries}
+			kb, _ := yaml.Marshal(k)
+			fs := filesys.MakeFsInMemory()
+			fs.MkdirAll("/l")
+			fs.WriteFile("/l/r.yaml", b)
+			fs.WriteFile("/l/kustomization.yaml", kb)
+			out, err := runBuild(fs, "/l", nil)
+			if err != nil {
+				if strings.Contains(err.Error(), "conflicting fieldspecs") {
+					return map[string]interface{}{"err": "conflict"}, "err-conflict"
+				}
+				return map[string]interface{}{"err": "build:" + err.Error()}, "err"
+			}
+			docs, _ := parseDocs(out)
+			var res []interface{}
+			for _, p := range lk.locs {
+				vv, ok := getPath(map[string]interface{}(docs[0]), ipath(strings.Split(p, "/")))
+				var c interface{}
+				if ok {
+					c = dictWire(strMap(vv))
+				}
+				res = append(res, map[string]interface{}{"path": p, "cur": c})
+			}
+			return map[string]interface{}{"ok": res}, lk.kind
+		}
+	}
+}
